@@ -43,6 +43,7 @@ def to_yaml(doc):
     s = io.StringIO()
     y = ruamel.yaml.YAML(typ="safe")
     y.default_flow_style = False
+    y.sort_base_mapping_type_on_output = False
     y.dump(doc, s)
     return s.getvalue()
 
